@@ -1,0 +1,21 @@
+//go:build verif
+
+// Export shims for the /verif C09 correspondence harness (add-only, build tag verif).
+package ca
+
+import (
+	"istio.io/istio/pkg/kube"
+)
+
+// VerifHasNodeAuthorizer reports whether impersonation support (CA_TRUSTED_NODE_ACCOUNTS) is configured.
+func (s *Server) VerifHasNodeAuthorizer() bool { return s.nodeAuthorizer != nil }
+
+// VerifWaitNodeAuthorizers waits until the pod informers of every per-cluster node authorizer have synced.
+func (s *Server) VerifWaitNodeAuthorizers(stop <-chan struct{}) {
+	if s.nodeAuthorizer == nil {
+		return
+	}
+	for _, c := range s.nodeAuthorizer.component.All() {
+		kube.WaitForCacheSync("verif-c09", stop, c.pods.HasSynced)
+	}
+}
